@@ -38,6 +38,12 @@ var Corpus = [][]string{
 		`POST /proxies/p1/toxics h {"name":"t1","type":"latency","attributes":{"latency":1}}`, `POST /proxies/p1 h {"enabled":false}`},
 	{`POST /proxies h {"name":"p1","listen":"127.0.0.1:$A","upstream":"127.0.0.1:$C"}`, `POST /proxies/p1/toxics h {"name":"t1","type":"latency","attributes":{"latency":1}}`, "||",
 		`POST /proxies/p1/toxics/t1 h {"attributes":{"latency":2}}`, `DELETE /proxies/p1/toxics/t1 h -`, `POST /proxies/p1 h {"upstream":"u:2"}`, `POST /reset h -`},
+	// two complete updates of one proxy: one re-addresses it, the other names the current address and
+	// disables it - one at a time either (old address, disabled) or (new address, enabled)
+	{`POST /proxies h {"name":"p1","listen":"127.0.0.1:$A","upstream":"u:1"}`, "||",
+		`POST /proxies/p1 h {"listen":"127.0.0.1:$B","upstream":"u:1","enabled":true}`, `POST /proxies/p1 h {"listen":"127.0.0.1:$A","upstream":"u:1","enabled":false}`},
+	{`POST /proxies h {"name":"p1","listen":"127.0.0.1:$A","upstream":"u:1"}`, "||",
+		`POST /proxies/p1 h {"listen":"127.0.0.1:$A","upstream":"u:2","enabled":true}`, `POST /proxies/p1 h {"listen":"127.0.0.1:$A","upstream":"u:1","enabled":false}`},
 	// a toxic add racing the removal of the same name, and two adds of one name
 	{`POST /proxies h {"name":"p1","listen":"127.0.0.1:$A","upstream":"u:1"}`, `POST /proxies/p1/toxics h {"name":"t1","type":"latency","attributes":{"latency":1}}`, "||",
 		`DELETE /proxies/p1/toxics/t1 h -`, `POST /proxies/p1/toxics h {"name":"t1","type":"noop","attributes":{}}`, `POST /proxies/p1/toxics h {"name":"t1","type":"timeout","attributes":{}}`},
